@@ -17,12 +17,19 @@ a `BlochWaves` object (zone axis, small tilt, arbitrary orientation; `orientatio
                          abTEM built (checks `retrieve_structure_factor_values` indexing, prefactor, excitation errors,
                          with CODATA constants hard-coded here); M^-1 S M unitary (flux conservation of the S matrix).
 
+Every stage (ensemble, eager, lazy, structure matrix, scattering matrix) runs under its own guard: an exception inside
+the property's domain is recorded as a violation of `no-exception:<stage>` and the remaining stages still run, so that
+independent defects (read-only pandas array, laziness of a pre-built StructureFactorArray, scipy Euler-angle shapes,
+index range of non-orthogonal cells) are reported separately.
+
 Tolerance model (documented, calibrated on the tree with the read-only fix applied): abTEM applies the non-zero Laue
 zone factor M_g = (1+g_z/k0)^-1/2 differently in the two paths (eigen path: only on the diagonal of the eigenvector
 matrix; S-matrix path: M S M^-1), so for beams with g_z != 0 the plain sum and the two paths agree only to first order
-in g_z/k0.  The oracle therefore allows  |sum I - 1| <= 1e-9 + 5 W + d^2  and  |I_expm - I_eig| <= 1e-8 + 25 W + d^2  with
-d = max_g |g_z|/k0 and
-W = max_z sum_g I_g(z) |g_z|/k0 (computed here from hkl, cell, energy), which is *zero* - i.e. float64 round-off
+in g_z/k0.  The oracle therefore allows  |sum I - 1| <= 1e-9 + 8 W + d^2  and, per beam,
+|I_expm - I_eig| <= 1e-8 + 5 B + d^2  with d_g = |g_z|/k0, d = max_g d_g, W = max_z sum_g I_g(z) d_g and
+B = max_g d_g (2 I_g + sqrt(I_g)) (the first-order difference between M_g^2 |phi_g|^2 and |phi_g + (1/M_g - 1) c_g|^2;
+calibration: residual <= 0.68 W resp. 0.44 B over ~2000 cases), all computed here from hkl, cell and energy.  They are
+*zero* - i.e. float64 round-off
 tolerances - for zone-axis cases without higher-order Laue zone beams; such cases are counted separately
 (`:no-holz` clauses) and are required.
 """
@@ -45,7 +52,7 @@ CLAUSES = ["intensity-sum", "intensity-sum:no-holz", "zero-thickness", "lazy-eag
            "s-matrix-flux-unitary", "ensemble-member"]
 QUICK = dict(n=34, time=45)
 THOROUGH = dict(n=1600, time=420, shards=16)
-ASSUMPTIONS = ["beams with g_z != 0 are judged to first order in g_z/k0 (tolerance 5W / 25W, W = sum_g I_g |g_z|/k0); cases "
+ASSUMPTIONS = ["beams with g_z != 0 are judged to first order in g_z/k0 (tolerance 8 W for the sum, 5 B per beam for the path comparison); cases "
                "without such beams are judged at float64 round-off",
                "CPU backend; at most ~150 beams per calculation"]
 
@@ -329,7 +336,7 @@ def _check(ctx, case):
     def judge_intensities(I2, tag):
         ctx.expect(np.isfinite(I2).all() and (I2 >= 0).all(), "intensity-sum", what="negative or non-finite intensity", run=tag)
         W = float((I2 * dz[None]).sum(-1).max())
-        ctx.close(I2.sum(-1), np.ones(len(th_list)), "intensity-sum", rtol=0, atol=eps + 5 * W + float(dz.max()) ** 2, W=W, n=n, run=tag)
+        ctx.close(I2.sum(-1), np.ones(len(th_list)), "intensity-sum", rtol=0, atol=eps + 8 * W + float(dz.max()) ** 2, W=W, n=n, run=tag)
         if no_holz:
             ctx.close(I2.sum(-1), np.ones(len(th_list)), "intensity-sum:no-holz", rtol=0, atol=eps, n=n, run=tag)
         for t, row in zip(th_list, I2):
@@ -428,8 +435,9 @@ def _check(ctx, case):
             if I2 is None:
                 continue
             Ie = np.abs(S[:, i0]) ** 2
-            Wt = float((I2[k] * dz).sum())
-            ctx.close(Ie, I2[k], "expm-equals-eig", rtol=0, atol=10 * eps + 25 * Wt + float(dz.max()) ** 2, thickness=t, W=Wt, n=n)
+            # per-beam first-order bound: |M_g^2 - 1| I_g + |1/M_g - 1| sqrt(I_g) <= d_g (2 I_g + sqrt(I_g)), d_g = |g_z|/k0
+            Bt = float((dz * (2 * I2[k] + np.sqrt(I2[k]))).max())
+            ctx.close(Ie, I2[k], "expm-equals-eig", rtol=0, atol=10 * eps + 5 * Bt + float(dz.max()) ** 2, thickness=t, B=Bt, n=n)
             if no_holz:
                 ctx.close(Ie, I2[k], "expm-equals-eig:no-holz", rtol=0, atol=10 * eps, thickness=t, n=n)
     attempt(ctx, "scattering-matrix", expm_stage)
@@ -476,4 +484,4 @@ def _check_ensemble(ctx, case, bw, th, th_list, eps):
         ctx.close(got, full, "ensemble-member", rtol=0, atol=(2e-3 if f32 else 1e-10), member=list(idx))
         g, k0, dz, M = model_quantities(np.asarray(one.hkl), one.cell, case["energy"])
         Wm = float((ref * dz[None]).sum(-1).max())
-        ctx.close(got.sum(-1), np.ones(len(th_list)), "intensity-sum", rtol=0, atol=eps + 5 * Wm + float(dz.max()) ** 2, member=list(idx))
+        ctx.close(got.sum(-1), np.ones(len(th_list)), "intensity-sum", rtol=0, atol=eps + 8 * Wm + float(dz.max()) ** 2, member=list(idx))
